@@ -145,6 +145,53 @@ def targets(ctx):
         case["route"] = draw(st.sampled_from(["kwargs", "kwargs", "kwargs", "setattr", "lazy", "lazy", "kwargs_multi"]))
         return case
 
+    # ---- hand-written message classes (public field API) whose attribute names are not what the plugin would generate
+    def hand_cases():
+        for casing in ("camel", "snake"):
+            for path in ("dict", "json", "to_json"):
+                for form in ("class", "instance"):
+                    yield {"hand": True, "casing": casing, "path": path, "form": form}
+
+    _hand = {}
+
+    def hand_classes():
+        if not _hand:
+            import dataclasses
+            from typing import Dict, List, Optional
+
+            Inner = dataclasses.make_dataclass("HandInner", [("innerValue", int, betterproto.int64_field(1)), ("HTTPCode", int, betterproto.int32_field(2))],
+                                               bases=(betterproto.Message,), eq=False, repr=False)
+            Outer = dataclasses.make_dataclass("HandOuter", [
+                ("userID", str, betterproto.string_field(1)), ("sessionToken", bytes, betterproto.bytes_field(2)), ("retry__count", int, betterproto.int32_field(3)),
+                ("tags", List[str], betterproto.string_field(4)), ("HTTPStatus", int, betterproto.uint64_field(5)), ("x_y_z", float, betterproto.double_field(6)),
+                ("address_line_1", str, betterproto.string_field(7)), ("subItem", Inner, betterproto.message_field(8)), ("byName", Dict[str, Inner], betterproto.map_field(9, "string", "message")),
+                ("manyItems", List[Inner], betterproto.message_field(10)), ("maybeFlag", Optional[bool], betterproto.bool_field(11, optional=True)),
+                ("trailing_", int, betterproto.sint32_field(12)), ("ipv4Address", str, betterproto.string_field(13)),
+            ], bases=(betterproto.Message,), eq=False, repr=False)
+            _hand["Inner"], _hand["Outer"] = Inner, Outer
+        return _hand["Inner"], _hand["Outer"]
+
+    def hand_ev(case):
+        Inner, Outer = hand_classes()
+        m = Outer(userID="u", sessionToken=b"\x00\xff", retry__count=3, tags=["a", ""], HTTPStatus=2**63, x_y_z=1.5, address_line_1="x",
+                  subItem=Inner(innerValue=-(2**62), HTTPCode=404), byName={"k": Inner(HTTPCode=1)}, manyItems=[Inner(innerValue=1), Inner()], maybeFlag=False,
+                  trailing_=-5, ipv4Address="::1")
+        fails = []
+        try:
+            if case["path"] == "to_json":
+                m2 = guard("from_json", Outer().from_json, guard("to_json", m.to_json, casing=CAS[case["casing"]]))
+            else:
+                d = guard("to_dict", m.to_dict, CAS[case["casing"]])
+                d2 = json.loads(json.dumps(d)) if case["path"] == "json" else d
+                m2 = guard("from_dict", Outer.from_dict if case["form"] == "class" else Outer().from_dict, d2)
+            if m2 != m or bytes(m2) != bytes(m):
+                fails.append(Failure("handwritten_roundtrip", f"handwritten|roundtrip|{case['casing']}|{case['path']}", f"case={case!r}: {m2!r:.400} vs {m!r:.400}"))
+        except Guarded as g:
+            fails.append(Failure(f"raises_{g.where}", f"handwritten|raises_{g.where}_{type(g.exc).__name__}|{case['casing']}", str(g)))
+        return Eval(fails, nontrivial=True, labels=["handwritten_class", f"casing:{case['casing']}"])
+
     from . import _seq
 
-    return [Target("corpus_values_json", ev, poison=_poison_fn, strategy=strat(), quick=700, thorough=8000, time_quick=70), _seq.target("C04")]
+    return [Target("handwritten_classes_odd_attribute_names", hand_ev, cases=hand_cases, exhaustive=True, shard_cases=False,
+                   rule="a hand-written message (public field API) with attribute names userID, sessionToken, retry__count, HTTPStatus, x_y_z, address_line_1, subItem, byName, trailing_ ... : every casing x path x form"),
+            Target("corpus_values_json", ev, poison=_poison_fn, strategy=strat(), quick=700, thorough=8000, time_quick=70), _seq.target("C04")]
